@@ -726,8 +726,12 @@ def rule_R2(ctx, entry_terms):
         if inside:
             gs.append((test, pol))
     thin_ok = None
+    gtest = gs[0][0] if len(gs) == 1 else None
+    if isinstance(gtest, ast.Name):  # `record = i % thin == 0; if record:` — a flag bound once, inside the loop, from the counter
+        d = [x.value for x in ast.walk(loop) if isinstance(x, ast.Assign) and len(x.targets) == 1 and isinstance(x.targets[0], ast.Name) and x.targets[0].id == gtest.id]
+        gtest = d[0] if len(d) == 1 and len(_stores(f.node, gtest.id)) == 1 else gtest
     for p in f.params:
-        if len(gs) == 1 and _thin_test(gs[0][0], gs[0][1], I, p) and not _stores(f.node, p):
+        if gtest is not None and _thin_test(gtest, gs[0][1], I, p) and not _stores(f.node, p):
             thin_ok = p
     ctx.check(thin_ok is not None, "R2", "the append is guarded by exactly `i % thin == 0`", f.where(gs[0][0]) if gs else f.where(ac),
               "the append is guarded by %s; it must run exactly when the loop counter is a multiple of the thinning interval" % (" and ".join("%s%s" % ("" if pol else "not ", u(t)) for t, pol in gs) or "nothing"),
@@ -740,7 +744,6 @@ def rule_R2(ctx, entry_terms):
     # ---- (5) what the entry records: the counter, the moved tree, the chain's tree_dist, this trace
     ex_app, terms = entry_terms
     def param_feeding(key):
-        from ..termflow import key_atom
         v = terms.get(key)
         a = v.as_atom() if hasattr(v, "as_atom") else None
         if a is not None and a[0] == "v" and str(a[1]).startswith("P"):
@@ -754,9 +757,7 @@ def rule_R2(ctx, entry_terms):
                   "append_to_trace receives %s as the iteration number, not the loop counter %s" % (u(a) if a is not None else "nothing", I), construct=f.qualname, stmt="iter argument")
     else:
         ctx.fail("R2", "the entry's iter is the loop counter", app.where(), "entry['iter'] is not a parameter of append_to_trace", construct=app.qualname, stmt="iter argument")
-    a_tree = _arg_at(ac, app, "tree") if "tree" in app.params else None
-    a_dist = _arg_at(ac, app, "tree_dist") if "tree_dist" in app.params else None
-    a_tr = _arg_at(ac, app, "trace") if "trace" in app.params else None
+    a_tree, a_dist, a_tr = _arg_at(ac, app, "tree"), _arg_at(ac, app, "tree_dist"), _arg_at(ac, app, "trace")  # AnalysisError if renamed
     ok = all(isinstance(x, ast.Name) for x in (a_tree, a_dist, a_tr)) and a_tree.id == TREE and a_dist.id == "tree_dist" and a_tr.id == T
     ctx.check(ok, "R2", "append_to_trace(i, timer, trace, tree, tree_dist) receives the chain's trace, current tree and tree_dist", f.where(ac),
               "the append call `%s` does not pass the trace started by setup_trace, the tree variable the samplers rebind and the chain's tree_dist" % u(ac)[:90], construct=f.qualname, stmt="append arguments")
@@ -1193,6 +1194,12 @@ SELFTEST = [
          "new": "    for i in range(0, num_iters):\n        with timer:\n            if i % print_freq == 0:\n                print_stats(i, tree, tree_dist, chain_num)\n\n            clear_proposal_dist_caches()\n\n            if rng.random()"}]},
     {"name": "benign-print-and-negated-guard-arm", "kind": "benign", "file": _RUN, "old": "            if i % thin == 0:\n                append_to_trace(i, timer, trace, tree, tree_dist)\n\n            if timer.elapsed >= max_time:",
      "new": "            if i % thin != 0:\n                pass\n            else:\n                print(\"recording\", i, len(trace))\n                append_to_trace(i, timer, trace, tree, tree_dist)\n\n            if timer.elapsed >= max_time:"},
+    {"name": "benign-from_dict-param-renamed-data-in-constructor", "kind": "benign", "edits": [
+        {"file": _T, "old": "        new._data = defaultdict(list)\n\n        new._node_indices_rev = tree_dict[\"node_idx_rev\"].copy()\n", "new": "        new._data = defaultdict(list, {k: list(v) for k, v in tree_dict[\"node_data\"].items()})\n\n        new._node_indices_rev = tree_dict[\"node_idx_rev\"].copy()\n"},
+        {"file": _T, "old": "        new._data.update({k: v.copy() for k, v in tree_dict[\"node_data\"].items()})\n", "new": ""}]},
+    {"name": "benign-thin-guard-through-flag", "kind": "benign", "edits": [
+        {"file": _RUN, "old": "            tree.relabel_nodes()\n\n            if concentration_update:\n                update_concentration_value(conc_sampler, tree, tree_dist)\n\n            if i % thin == 0:\n                append_to_trace(i, timer, trace, tree, tree_dist)\n",
+         "new": "            tree.relabel_nodes()\n\n            if concentration_update:\n                update_concentration_value(conc_sampler, tree, tree_dist)\n\n            record = i % thin == 0\n            if record:\n                append_to_trace(i, timer, trace, tree, tree_dist)\n"}]},
     {"name": "benign-setup_trace-locals-renamed", "kind": "benign", "file": _RUN, "old": "    trace = []\n    append_to_trace(0, timer, trace, tree, tree_dist)\n    return trace\n",
      "new": "    entries = list()\n    start = 0\n    append_to_trace(start, timer, entries, tree, tree_dist)\n    return entries\n"},
 ]
